@@ -25,6 +25,7 @@ claimed = {
  "C13": dict(tech=TECH + "; second -race build of the same harness: the scheduler hand-offs are invisible to ThreadSanitizer, so every explored schedule is checked against the program's real happens-before relation", ref="2.6, 3 C13", text="Every scenario of every other concurrency property (all listed types: Broadcast, csync, CContainer, ccall, conc, cqueue, linkedlist, Keyed, KeyedRefCount, RoutineContainer, StateRoutineContainer, RefCount, Promise, PromiseContainer, Once, MemoizeFunc, iocloser, iosizer) is explored again in a -race build; a ThreadSanitizer report with a library frame is a violation, replayable from its choice sequence."),
  "C14": dict(tech=TECH_HIST, ref="3 C14", text="Every operation sequence up to depth 5 (quick) / 6 (thorough) over the routine API including scripted exits of the current instance (nil / error), retry-timer firings and non-blocking WaitExited probes, times three back-off configurations, on RoutineContainer and StateRoutineContainer; after every operation the number of routine entries, the running status, exit-callback reports, WaitExited results and back-off calls are compared with a reference machine that encodes only what C14 states (unstated cases accept either behaviour)."),
  "C19": dict(tech=TECH_INPUT, ref="3 C19", text="Exhaustive small-scope enumeration run directly on the real functions: every message length 0..130 (520 thorough) x spare capacity x fill for Pad/Unpad round trips, every length x trailer byte for Unpad alone, every tuple of up to 3 strings of length <=3 over an alphabet containing bytes >= 0x80 and a split UTF-8 sequence for Prefix/TrimPrefix against the byte-wise definition, and every chunk composition of a 16-byte (20 thorough) read for the prng reader, for 3 seeds."),
+ "C20": dict(tech=TECH_HIST + "; schedule exploration for the concurrent helpers (ioproxy pumps, iocloser Close racing Read/Write, concurrent iosizer)", ref="3 C20", text="Every call sequence up to depth 3-6 (quick) over ioseek (Seek/Read against an offset+slice model), iosizer (scripted wrapped-stream answers), iocloser (Read/Write/Close words, close function counted) and unique.KeyedList/KeyedMap (contents model and notification-log replay, duplicate keys in one call, two equality functions); plus every interleaving (bounded) of the ioproxy pumps over every chunking of the messages, of Close racing Read/Write, and of concurrent SizeReadWriter users."),
  "C01": dict(tech=TECH, ref="3 C01", text="Every interleaving (preemption bound 2 quick / 3 thorough) of 8+4 small client programs of csync.Mutex/RWMutex (Lock, TryLock, Locker, double release, cancellation) runs on the real code; an exact occupancy counter checks 'one writer or many readers' at every acquire."),
  "C02": dict(tech=TECH, ref="3 C02", text="Same exploration; liveness is decided exactly at every quiescent state of the controlled scheduler (nobody parked in a grantable Lock), cancelled waiters must return context.Canceled and leave the lock probe-able, readers may not overtake a waiting writer."),
 }
